@@ -1,3 +1,4 @@
+@delay.setter
 def spec(self, value):
     if hasattr(self, 'delay_'):
         self.delay_.data = value
